@@ -32,10 +32,14 @@ def variants():
     prof0 = (u, v, K, K, K)
     prof1 = (u * 1.5, v, K, K, K)
     rng = np.random.default_rng(7)
+    # the last entry of every float-valued table differs from the base value only in a LATE significant digit (for the halo: just
+    # below a whole number of cells, so that one cell less is padded): a key that formats or rounds its arguments serves the neighbour
+    prof2 = (u * (1.0 + 1e-9), v, K, K, K)
     return dict(
-        z=[z0, z1], profiles=[prof0, prof1], domain=[(60.0, 48.0), (72.0, 48.0)], modes=[(6, 6), (4, 6), (8, 4), (6, 4), (8, 8)],
-        measPt=[(20.0, 16.0), (30.0, 16.0)], halo=[10.0, 20.0, 60.0, 72.0, 0.0], precision=["double", "single"],
-        levels=[2, [2], [1, 3], 3], shape=[(6, 6), (8, 6)], analytic=[True, False], bg=[0.0, 1.5],
+        z=[z0, z1, z0 + 1e-9], profiles=[prof0, prof1, prof2], domain=[(60.0, 48.0), (72.0, 48.0), (60.000004, 48.0)],
+        modes=[(6, 6), (4, 6), (8, 4), (6, 4), (8, 8)],
+        measPt=[(20.0, 16.0), (30.0, 16.0), (20.000002, 16.0)], halo=[10.0, 20.0, 60.0, 72.0, 0.0, 60.000004, 9.999998], precision=["double", "single"],
+        levels=[2, [2], [1, 3], 3], shape=[(6, 6), (8, 6)], analytic=[True, False], bg=[0.0, 1.5, 1e-9],
         q=[0, 1],
     )
 
